@@ -360,7 +360,7 @@ MUTATION_KINDS = ["unknown-tag", "extension-forbidden", "extension-is-schema-ter
                   "extra-open-paren", "extra-close-paren", "swapped-parens", "double-comma", "leading-comma", "trailing-comma",
                   "empty-group", "missing-comma", "bracket-char", "control-char", "tilde", "stray-placeholder",
                   "undeclared-def", "def-extra-value", "def-missing-value", "altered-def-expand",
-                  "second-event-context", "definition-in-annotation"]
+                  "second-event-context", "definition-in-annotation", "repeated-toplevel-tag"]
 
 
 def mutate(gen, items, kind, rng):
@@ -645,6 +645,21 @@ def mutate(gen, items, kind, rng):
             items.insert(rng.randrange(0, len(items) + 1),
                          group([tag(gen.spell(node), "", node.path, "event-context"), gen._plain_atom()]))
         code = "TAG_NOT_UNIQUE"
+    elif kind == "repeated-toplevel-tag":
+        # a legal Delay + Duration pair with a second copy of one of the two carrying another value
+        if not ({"Delay", "Duration"} <= gen.top) or not gen.sp["Delay"].takes_value or not gen.sp["Duration"].takes_value:
+            return None
+        dn, un = gen.sp["Delay"], gen.sp["Duration"]
+        twice = rng.choice([dn, un])
+        v1, v2 = gen._time_value(twice), gen._time_value(twice)
+        if v1.casefold() == v2.casefold():
+            return None
+        other = un if twice is dn else dn
+        kids = [tag(gen.spell(twice), "/" + v1, twice.path, "raw-temporal"), tag(gen.spell(twice), "/" + v2, twice.path, "raw-temporal"),
+                tag(gen.spell(other), "/" + gen._time_value(other), other.path, "raw-temporal"), gen.plain_group(1)]
+        rng.shuffle(kids)
+        items.insert(rng.randrange(0, len(items) + 1), group(kids, "faulty-temporal-group"))
+        code = "TAG_GROUP_ERROR"
     elif kind == "definition-in-annotation":
         if "Definition" not in gen.sp:
             return None
